@@ -126,6 +126,20 @@ def l1_search(scratch, depth):
             bad.append((("increment", chrom), "allocated %s collides with reference numbers %s" % (got, sorted(ref_numbers[chrom]))))
         if len(set(got)) != len(got) or got != sorted(got):
             bad.append((("increment", chrom), "allocated numbers not strictly increasing: %s" % got))
+    # the same annotation on chromosomes whose NAMES contain the separators of the id scheme (transcript<N>.<chr>.nic,
+    # novel_gene_<chr>_<N>): alternative contigs (KI270728.1), names with underscores, and both
+    import json
+    for n1, n2 in (("KI270728.1", "GL000194.1"), ("chr_un_1", "chrUn_KI270442v1"), ("HLA.A_1", "2.1_x")):
+        w2 = json.loads(json.dumps(w).replace("chr1", n1).replace("chr2", n2))
+        tag = "ids_%s" % n1.replace(".", "-")
+        db2 = gffutils.FeatureDB(syn.build_db(syn.write_gtf(w2, os.path.join(scratch, tag + ".gtf")), os.path.join(scratch, tag + ".db")))
+        for chrom, key in ((n1, "chr1"), (n2, "chr2")):
+            d = ExcludingIdDistributor(db2, chrom)
+            got = [d.increment() for _ in range(8)]
+            states += 8
+            transitions += 8
+            if set(got) & ref_numbers[key]:
+                bad.append((("increment", chrom), "allocated %s collides with reference numbers %s (chromosome named %s)" % (got, sorted(ref_numbers[key]), chrom)))
     d = ExcludingIdDistributor(None, "chr1")
     if [d.increment() for _ in range(3)] != [1, 2, 3]:
         bad.append((("increment", None), "annotation-free distributor does not count 1,2,3"))
@@ -176,13 +190,17 @@ def pipeline_world(variant):
         # reads of the annotated isoform T8 itself, again in two disjoint clusters (exons 1-4 / 5-8): the reference id is reported once
         reads.append(W.read_of("f1_%d" % i, "chr1", [mix.G6_EXONS[k] for k in (0, 1, 2, 3)], polya=False))
         reads.append(W.read_of("f2_%d" % i, "chr1", [mix.G6_EXONS[k] for k in (4, 5, 6, 7)]))
-    if variant == "extra":
+    if variant in ("extra", "dotted"):
         nov_e = W.exons(1000, [1, 2, 3, 4, 5])
         W.add_sites_for_blocks(w, "chr1", nov_e, "+")
         for i in range(5):
             reads.append(W.read_of("ne_%d" % i, "chr1", nov_e))
     W.dedup_sites(w)
     w["reads"] = reads
+    if variant == "dotted":
+        # chromosome names that contain the separators of the id scheme (an alternative contig and a name with underscores)
+        import json
+        w = json.loads(json.dumps(w).replace('"chr1"', '"KI270728.1"').replace('"chr2"', '"chrUn_GL000194v1"'))
     return w
 
 
@@ -308,6 +326,7 @@ def run(ctx):
     for variant in (["base"] if quick else ["base", "extra"]):
         for s in strategies:
             jobs.append((variant, s, 2 if quick else 3, ctx.scratch))
+    jobs.append(("dotted", "all", 2 if quick else 3, ctx.scratch))
     # histories: the annotation of iteration i+1 is the extended annotation of iteration i, obtained from ANOTHER read set, so that ids
     # generated earlier meet novel transcripts of the same loci generated later
     sets = ("R0", "R1", "R2")
